@@ -303,7 +303,7 @@ impl Property for C13 {
         "C13"
     }
     fn rule(&self) -> String {
-        "Generated: ontologies (built with defaults through own v1/v2/v3 bytes, as_bytes round trip, JAX files or the Builder, so categories and modifier roots are defined) with obsolete terms, replacements pointing to existing terms (members, non-members, the term itself) and to ids that are not terms (then only len / contains are observed), modifier branches and records of all kinds; in one case of five each the modifier roots / the categories are replaced through modifier_mut() / categories_mut() by arbitrary terms, after the set was questioned once under the groups the ontology was built with; member sets of 0-12 terms drawn with repetition (empty sets, ancestors together with descendants), one case in 13 with 44-72 terms and 30-90 picks (more than the 30 members an id group stores inline). Oracle on the reference model: child_nodes = members without a member among their descendants; without_modifier/remove_modifier drop exactly members that are or descend from a modifier root; without_obsolete/remove_obsolete drop exactly flagged members; with_replaced_obsolete/replace_obsolete map exactly the members naming a replacement (collisions shrink the set); gene/omim/orpha id sets = unions over members; categories() = per-category member counts; information_content gene/omim = -ln(|union|/N) (0 rule; 1e-5); each in-place method equals its copying twin; len/is_empty/contains/get/iter/Extend agree with the member set; copying methods leave the set untouched. Half of the cases additionally drive ONE set object through 1-8 operations (read aggregates / remove_modifier / remove_obsolete / replace_obsolete / extend / child_nodes / continue on a copy), comparing members and all aggregates with the model after every step (state kept inside the object between calls). Fixed cases in their own processes: sets of 130-300 (thorough 66 000) members on ontologies of 900-70 000 terms in two id scatterings, and sets of 2-5 members on a chain of 300 links that lie up to 297 levels apart or all deeper than 255 levels. evaluations = set operations. Non-trivial = set contains an ancestor/descendant pair, an obsolete and a replaced member; distinct by hash of the case.".into()
+        "Generated: ontologies (built with defaults through own v1/v2/v3 bytes, as_bytes round trip, JAX files or the Builder, so categories and modifier roots are defined) with obsolete terms, replacements pointing to existing terms (members, non-members, the term itself) and to ids that are not terms (then only len / contains are observed), modifier branches and records of all kinds; in one case of five each the modifier roots / the categories are replaced through modifier_mut() / categories_mut() by arbitrary terms, after the set was questioned once under the groups the ontology was built with; member sets of 0-12 terms drawn with repetition (empty sets, ancestors together with descendants), one case in 13 with 44-72 terms and 30-90 picks (more than the 30 members an id group stores inline). Oracle on the reference model: child_nodes = members without a member among their descendants; without_modifier/remove_modifier drop exactly members that are or descend from a modifier root; without_obsolete/remove_obsolete drop exactly flagged members; with_replaced_obsolete/replace_obsolete map exactly the members naming a replacement (collisions shrink the set); gene/omim/orpha id sets = unions over members; categories() = per-category member counts; information_content gene/omim = -ln(|union|/N) (0 rule; 1e-5); each in-place method equals its copying twin; len/is_empty/contains/get/iter/Extend agree with the member set; copying methods leave the set untouched. Half of the cases additionally drive ONE set object through 1-8 operations (read aggregates / remove_modifier / remove_obsolete / replace_obsolete / extend / child_nodes / continue on a copy), comparing members and all aggregates with the model after every step (state kept inside the object between calls). Fixed cases in their own processes: sets of 130-300 (thorough 66 000) members on ontologies of 900-70 000 terms in two id scatterings, and sets of 2-5 members on a chain of 300 links that lie up to 297 levels apart or all deeper than 255 levels, and the set of all nine terms of an ontology with 33 000-40 000 records per kind. evaluations = set operations. Non-trivial = set contains an ancestor/descendant pair, an obsolete and a replaced member; distinct by hash of the case.".into()
     }
     fn assumptions(&self) -> Vec<String> {
         vec!["replacements name existing terms (a set holding an id that is not a term is outside the documented domain of HpoSet)".into()]
@@ -315,7 +315,7 @@ impl Property for C13 {
         }
     }
     fn required_labels(&self, _tier: Tier) -> Vec<&'static str> {
-        vec!["nontrivial", "members>30", "empty-set", "ancestor-and-descendant-members", "replacement-collides-with-member", "modifier-member", "modifier-root-member", "replaced-but-not-obsolete-member", "sequence:mutation-after-aggregate-read", "members>255", "replacement-names-an-id-that-is-not-a-term", "custom-modifier-roots", "custom-categories", "members-more-than-255-levels-apart"]
+        vec!["nontrivial", "members>30", "empty-set", "ancestor-and-descendant-members", "replacement-collides-with-member", "modifier-member", "modifier-root-member", "replaced-but-not-obsolete-member", "sequence:mutation-after-aggregate-read", "members>255", "replacement-names-an-id-that-is-not-a-term", "custom-modifier-roots", "custom-categories", "members-more-than-255-levels-apart", "unions>32767-records"]
     }
     fn run_generated(&self, tier: Tier, seed: u64, n: u64, stats: &mut Stats) -> Option<(Value, Failure)> {
         run_typed(strategy(tier), seed, n, stats, check)
@@ -334,6 +334,20 @@ impl Property for C13 {
             let r = check(&c, stats);
             if r.is_ok() {
                 stats.label("members>255");
+            }
+            return Ok(r);
+        }
+        if let Some(b) = case.get("large") {
+            // (genes, omim, orpha): tens of thousands of records on nine terms; the set of all terms has unions of that size
+            let v: (u32, u32, u32) = serde_json::from_value(b.clone()).map_err(|e| e.to_string())?;
+            stats.cases += 1;
+            let facts = super::common::large_record_facts(v.0, v.1, v.2);
+            let members: Vec<u32> = facts.terms.iter().map(|t| t.id).collect();
+            let ops = vec![(0u8, 0u16), (3, 0), (0, 0)];
+            let c = Case { facts, members, path: PathSel::Bin(3), ops, custom_modifier: vec![], custom_categories: vec![] };
+            let r = check(&c, stats);
+            if r.is_ok() {
+                stats.label("unions>32767-records");
             }
             return Ok(r);
         }
@@ -363,6 +377,7 @@ impl Property for C13 {
             json!({"deep": (300u32, 7919u32, vec![3u32, 36, 70, 135, 300])}),
             // both members have more ancestors than an 8-bit counter holds
             json!({"deep": (300u32, 104_729u32, vec![258u32, 299])}),
+            json!({"large": (40_000u32, 36_000u32, 33_000u32)}),
             json!({"deep": (300u32, 7919u32, vec![256u32, 257, 290])}),
         ];
         if tier == Tier::Thorough {
